@@ -29,6 +29,8 @@ func c07ProbeRules(c *core.Ctx, root *packages.Package) {
 	c07ForkEdge(c, root)
 	c07QueueHandoff(c, root)
 	c07QueryCancel(c, root)
+	c07WaitAll(c, root)
+	c07CloseOrder(c)
 	if ep := c.P.Pkg("edge"); ep != nil {
 		c07Readers(c, ep)
 	} else {
